@@ -500,6 +500,9 @@ impl Space for Fresh {
 
 // -------------------------------------------------------------------------------------------------
 pub fn space(tier: Tier, id: &str) -> Option<Box<dyn Space>> {
+    if let Some(r) = reversed_of(id, |base| space(tier, base)) {
+        return r;
+    }
     match id {
         "encrypt" => Some(Box::new(Encrypt { tier, cases: cases(tier) })),
         "freshness" => Some(Box::new(Fresh { tier, n: cases(tier).len() as u64 })),
@@ -516,7 +519,7 @@ fn run(ctx: &Ctx) -> i32 {
         eprintln!("MACHINERY: C14 oracle self-test failed: {}", e);
         return 2;
     }
-    let ids = ["encrypt", "freshness"];
+    let ids = ["encrypt", "freshness", "encrypt~rev"];
     let spaces = ids.iter().map(|id| (*id, space(ctx.tier, id).unwrap())).collect();
     let cs = cases(ctx.tier);
     let pws = passwords(ctx.tier);
